@@ -453,6 +453,12 @@ def _children(run: Run, prog: Program, model: Model, cls: ClassInfo) -> None:
                     if e.kind == "call" and isinstance(e.data.get("callee"), str) and e.data["callee"].endswith("random_choice") and e.data.get("args"):
                         seen += 1
                         dep = e.data["args"][0].key() + " " + " ".join(k for k, _, _ in p.facts[:e.nfacts])
+                        # how often a loop over range(lo, hi + 1) ran is a dependence on its bounds too
+                        for e2 in p.events:
+                            if e2 is e:
+                                break
+                            if e2.kind in ("loop", "comp_iter") and isinstance(e2.data.get("iterable"), V):
+                                dep += " " + e2.data["iterable"].key()
                         for nm in names:
                             if nm not in dep:
                                 blind.append(f"on a path the candidate letters {e.data['args'][0].key()[:40]} do not depend on `{nm}` "
@@ -551,6 +557,9 @@ def _alphabets(run: Run, prog: Program, model: Model, cls: ClassInfo, cat_alpha:
 
 X = "d42/generation/_regex_generator.py"
 MUTANTS = [
+    {"name": "negated class: per-letter test returns at the first range", "rule": "CHILDREN",
+     "edits": [(X, "        letters = \"\".join(set(self._alphabet[\"letters\"]) - set(exclude_letters))",
+                "        first = value[0] if value else None\n        if first is not None and first[0] == RANGE:\n            exclude_letters = \"\".join(chr(x) for x in range(first[1][0], first[1][1] + 1))\n        letters = \"\".join(set(self._alphabet[\"letters\"]) - set(exclude_letters))")]},
     {"name": "dispatch default returns ''", "rule": "DISPATCH",
      "edits": [(X, "        else:\n            raise ValueError(f\"Unknown opcode {opcode}\")", "        else:\n            return \"\"")]},
     {"name": "category default returns letters", "rule": "DISPATCH",
